@@ -589,4 +589,193 @@ theorem numCell_blank_iff (r : Renderer) (d : Rat) (w : Nat) :
     simp [renderCell, h, padLeft, allSpaces]
 
 
+
+theorem splitOnNL_cons_ne (c : Char) (cs : List Char) (hc : c ≠ '\n') (l : List Char) (ls : List (List Char))
+    (h : splitOnNL cs = l :: ls) : splitOnNL (c :: cs) = (c :: l) :: ls := by
+  rw [splitOnNL, h]; simp [hc]
+
+theorem splitOnNL_ne_nil : ∀ cs, splitOnNL cs ≠ []
+  | [] => by simp [splitOnNL]
+  | c :: cs => by
+    rw [splitOnNL]
+    split
+    · simp
+    · split <;> simp
+
+theorem splitOnNL_nl (cs : List Char) : splitOnNL ('\n' :: cs) = [] :: splitOnNL cs := by
+  rw [splitOnNL]
+  split
+  · rename_i h; exact absurd h (splitOnNL_ne_nil cs)
+  · rename_i l ls h; simp [h]
+
+theorem splitOnNL_line : ∀ (l : List Char) (rest : List Char), (∀ c ∈ l, c ≠ '\n') →
+    splitOnNL (l ++ '\n' :: rest) = l :: splitOnNL rest
+  | [], rest, _ => by simp [splitOnNL_nl]
+  | c :: l, rest, h => by
+    have ih := splitOnNL_line l rest (fun x hx => h x (by simp [hx]))
+    rw [List.cons_append]
+    exact splitOnNL_cons_ne c _ (h c (by simp)) l _ ih
+
+theorem splitOnNL_joinLines : ∀ (ls : List (List Char)), (∀ l ∈ ls, ∀ c ∈ l, c ≠ '\n') →
+    splitOnNL (joinLines ls) = ls ++ [[], []]
+  | [], _ => by
+    show splitOnNL ['\n'] = _
+    rw [splitOnNL_nl]; rfl
+  | l :: ls, h => by
+    have ih := splitOnNL_joinLines ls (fun x hx => h x (by simp [hx]))
+    have : joinLines (l :: ls) = l ++ '\n' :: joinLines ls := by simp [joinLines]
+    rw [this, splitOnNL_line l _ (h l (by simp)), ih]; rfl
+
+/-- the lines of a text are recovered from its bytes -/
+theorem tableLines_joinLines (ls : List (List Char)) (h : ∀ l ∈ ls, ∀ c ∈ l, c ≠ '\n') :
+    tableLines (joinLines ls) = some ls := by
+  unfold tableLines
+  rw [splitOnNL_joinLines ls h]
+  have e1 : (ls ++ [[], []] : List (List Char)).dropLast = ls ++ [[]] := by
+    rw [show (ls ++ [[], []] : List (List Char)) = (ls ++ [[]]) ++ [[]] by simp, List.dropLast_concat]
+  have e2 : (ls ++ [[]] : List (List Char)).dropLast = ls := List.dropLast_concat
+  simp only [e1, e2]
+  simp
+
+
+
+theorem mem_groupLeft : ∀ (D : List Char) (c : Char), c ∈ groupLeft D → c ∈ D ∨ c = ','
+  | [], c, h => by simp [groupLeft] at h
+  | d :: D, c, h => by
+    rw [groupLeft_cons] at h
+    simp only [List.mem_cons, List.mem_append] at h ⊢
+    rcases h with h | h | h
+    · exact Or.inl (Or.inl h)
+    · unfold commaIf at h
+      split at h
+      · simp at h; exact Or.inr h
+      · simp at h
+    · rcases mem_groupLeft D c h with h | h
+      · exact Or.inl (Or.inr h)
+      · exact Or.inr h
+
+theorem isDigit_ne_nl {c : Char} (h : isDigit c = true) : c ≠ '\n' := by
+  intro hc; subst hc; simp [isDigit] at h
+
+theorem numToString_noNL (r : Renderer) (d : Rat) : ∀ c ∈ numToString r d, c ≠ '\n' := by
+  rw [numToString_shape]
+  intro c hc
+  simp only [List.mem_append] at hc
+  rcases hc with (hc | hc) | hc
+  · unfold signPart at hc
+    split at hc
+    · simp at hc; rw [hc]; decide
+    · simp at hc
+  · rcases mem_groupLeft _ c hc with h | h
+    · exact isDigit_ne_nl (digitsOf_isDigit h)
+    · rw [h]; decide
+  · rw [fracPart_eq] at hc
+    split at hc
+    · simp at hc
+    · rcases List.mem_cons.mp hc with h | h
+      · rw [h]; decide
+      · exact isDigit_ne_nl (fracDigits_isDigit h)
+
+theorem renderCell_noNL (r : Renderer) (c : Cell) (w : Nat) (hp : cellPlain c = true) :
+    ∀ x ∈ renderCell r c w, x ≠ '\n' := by
+  intro x hx
+  cases c with
+  | empty => simp [renderCell, spaces] at hx; rw [hx.2]; decide
+  | sep => simp [renderCell, dashes] at hx; rw [hx.2]; decide
+  | text s a ind =>
+    simp only [renderCell, spaces, List.mem_append, List.mem_replicate] at hx
+    rcases hx with (hx | hx) | hx
+    · rw [hx.2]; decide
+    · intro h
+      subst h
+      simp only [cellPlain, Bool.and_eq_true, Bool.not_eq_eq_eq_not, Bool.not_true] at hp
+      have := hp.2
+      simp at this
+      exact this hx
+    · rw [hx.2]; decide
+  | num n =>
+    simp only [renderCell, padLeft] at hx
+    split at hx
+    · simp at hx; rw [hx.2]; decide
+    · simp only [List.mem_append, List.mem_replicate] at hx
+      rcases hx with hx | hx
+      · rw [hx.2]; decide
+      · exact numToString_noNL r n x hx
+
+theorem createSep_noNL (c c' : Cell) : ∀ x ∈ createSep c c', x ≠ '\n' := by
+  unfold createSep
+  cases c.isSep <;> cases c'.isSep <;> decide
+
+theorem renderCells_noNL (r : Renderer) : ∀ (row : List Cell) (W : List Nat) (body : List Char),
+    (∀ c ∈ row, cellPlain c = true) → renderCells r row W = some body → ∀ x ∈ body, x ≠ '\n'
+  | [], _, body, _, h => by simp [renderCells] at h; subst h; simp
+  | _ :: _, [], _, _, h => by simp [renderCells] at h
+  | [c], w :: ws, body, hp, h => by
+    simp only [renderCells] at h
+    cases h
+    exact renderCell_noNL r c w (hp c (by simp))
+  | c :: c' :: cs, w :: ws, body, hp, h => by
+    simp only [renderCells] at h
+    cases hrec : renderCells r (c' :: cs) ws with
+    | none => simp [hrec] at h
+    | some t =>
+      simp only [hrec] at h
+      cases h
+      intro x hx
+      simp only [List.mem_append] at hx
+      rcases hx with (hx | hx) | hx
+      · exact renderCell_noNL r c w (hp c (by simp)) x hx
+      · exact createSep_noNL c c' x hx
+      · exact renderCells_noNL r (c' :: cs) ws t (fun y hy => hp y (by simp [hy])) hrec x hx
+
+theorem renderRow_noNL (r : Renderer) (W : List Nat) (row : List Cell) (line : List Char)
+    (hp : ∀ c ∈ row, cellPlain c = true) (h : renderRow r W row = some line) : ∀ x ∈ line, x ≠ '\n' := by
+  cases row with
+  | nil => simp [renderRow] at h
+  | cons c0 rest =>
+    simp only [renderRow] at h
+    cases hb : renderCells r (c0 :: rest) W with
+    | none => simp [hb] at h
+    | some body =>
+      simp only [hb] at h
+      cases h
+      intro x hx
+      simp only [List.mem_append] at hx
+      rcases hx with (hx | hx) | hx
+      · split at hx <;> (revert x; decide)
+      · exact renderCells_noNL r _ W body hp hb x hx
+      · split at hx <;> (revert x; decide)
+
+theorem renderRows_noNL (r : Renderer) (W : List Nat) : ∀ (rows : List (List Cell)) (ls : List (List Char)),
+    (∀ row ∈ rows, ∀ c ∈ row, cellPlain c = true) → renderRows r W rows = some ls →
+      ∀ l ∈ ls, ∀ x ∈ l, x ≠ '\n'
+  | [], ls, _, h => by simp [renderRows] at h; subst h; simp
+  | row :: rows, ls, hp, h => by
+    simp only [renderRows] at h
+    cases h1 : renderRow r W row with
+    | none => simp [h1] at h
+    | some l =>
+      cases h2 : renderRows r W rows with
+      | none => simp [h1, h2] at h
+      | some ls' =>
+        simp only [h1, h2] at h
+        cases h
+        intro l' hl'
+        rcases List.mem_cons.mp hl' with rfl | hl'
+        · exact renderRow_noNL r W row _ (hp row (by simp)) h1
+        · exact renderRows_noNL r W rows ls' (fun y hy => hp y (by simp [hy])) h2 l' hl'
+
+theorem renderLines_noNL (r : Renderer) (t : Table) (ls : List (List Char)) (hp : plain t = true)
+    (h : renderLines r t = .ok ls) : ∀ l ∈ ls, ∀ x ∈ l, x ≠ '\n' := by
+  unfold renderLines at h
+  split at h
+  · cases h
+  · rename_i ws _
+    split at h
+    · rename_i ls' hls
+      cases h
+      exact renderRows_noNL r ws t.rows ls (plain_spec hp) hls
+    · cases h
+
+
 end Knut.Table
